@@ -155,6 +155,12 @@ func (f *Formatter) formatComment(comments ast.Comments, sep string, level int) 
 		if !strings.HasPrefix(comments[i].String(), "#FASTLY") {
 			buf.WriteString(f.indent(level))
 		}
+		// #FASTLY macros must be kept as they are, the macro is recognized only with sharp character
+		if strings.HasPrefix(comments[i].String(), "#FASTLY") {
+			buf.WriteString(comments[i].String())
+			buf.WriteString(sep)
+			continue
+		}
 		switch f.conf.CommentStyle {
 		case config.CommentStyleSharp, config.CommentStyleSlash:
 			r := '#' // default as sharp style comment
